@@ -94,7 +94,10 @@ namespace
                 if (it != g_srv.plans.end())
                     p = it->second;
                 g_srv.received_at[tag] = net::now_s();
-                if (!carry.empty())
+                // (a request that is never answered, or answered after its time-out, is given up by the client, which may
+                // then rightly send the next request on that connection: with a 10 ms time-out and a loaded machine the
+                // two can be waiting in the socket together - not a misuse)
+                if (!carry.empty() && p.b != NeverAnswer && p.b != LateAnswer)
                     g_srv.violations.push_back("request " + tag + " arrived together with further bytes (second request before the response): " + printable(carry, 60));
             }
             if (m.body != "body-of-" + tag)
